@@ -142,9 +142,15 @@ pub fn record(cfg: &RecCfg) -> Result<Value, String> {
                     json!({"act": "op", "a": a})
                 }
                 "invalid" => json!({"act": "op", "a": g.invalid(&w.um)}),
+                "nstyle_probe" => json!({"act": "op", "a": g.nstyle_update_probe(&w.um)}),
                 other => json!({ "act": other }),
             };
             let evs = sink.step(&mut w, &mut it, run, &action)?;
+            if act == "valid" && action["a"]["op"] == "apply_nstyle" && evs.first().map(|e| e["res"] == "ok").unwrap_or(false) && g.rng.gen_bool(0.6) {
+                // coverage-directed probe: a style in use; reload; update the style
+                pattern = vec!["nstyle_probe", "reload"];
+                continue;
+            }
             if act == "valid" && evs.first().map(|e| e["res"] == "ok").unwrap_or(false) && g.rng.gen_bool(0.25) {
                 // coverage-directed probe: op; undo; redo; undo; redo
                 pattern = vec!["redo", "undo", "redo", "undo"];
